@@ -44,13 +44,20 @@ def check(ctx):
         raise AnalysisError(f"recording options {sorted(missing)} no longer exist in SolverOptions")
     ctx.note("physics_options", sorted(set(fields) - RECORDING))
     readers: Dict[str, Set[str]] = {}
+    from ..dataflow import expanded_text
     for f in repo.all_functions():
         if f.module.name.startswith("tdgl.visualization") or f.module.name in ("tdgl.visualize",):
             continue
+        env = None
         for n in own_nodes(f.node):
-            if isinstance(n, ast.Attribute) and isinstance(n.ctx, ast.Load) and n.attr in RECORDING \
-                    and norm(n.value).split(".")[-1] in ("options", "solver_options"):
-                readers.setdefault(f.fq, set()).add(n.attr)
+            if isinstance(n, ast.Attribute) and isinstance(n.ctx, ast.Load) and n.attr in RECORDING:
+                # is the base a SolverOptions object?  by type where known, else by what the (alias-expanded) base is called
+                if env is None:
+                    env = repo.local_types(f)
+                t = repo.expr_type(f, n.value, env)
+                last = expanded_text(f.node, n.value).split(".")[-1]
+                if (t or "").endswith(":SolverOptions") or "option" in last.lower() or "option" in norm(n.value).split(".")[-1].lower():
+                    readers.setdefault(f.fq, set()).add(n.attr)
     for fq, fl in sorted(readers.items()):
         ok = fq in ALLOWED_READERS
         f = repo.by_fq(fq)
@@ -193,13 +200,15 @@ def observers(ctx):
     loops = [n for n in own_nodes(fu.node) if isinstance(n, (ast.For, ast.While)) and any(
         isinstance(c, ast.Call) and norm(c.func) == "self.adaptive_euler_step" for c in ast.walk(n))]
     tail = fu.node.body[fu.node.body.index(loops[0]) + 1:] if loops and loops[0] in fu.node.body else []
+    from .c10 import update_roles
+    fields = ("psi", "mu", "supercurrent", "normal_current", update_roles(fu.node)[0])       # keyword parameters + the screening iterate
     muts = []
     for s in tail:
         for n in ast.walk(s):
             if isinstance(n, ast.Subscript) and isinstance(n.ctx, ast.Store) and isinstance(n.value, ast.Name) \
-                    and n.value.id in ("psi", "mu", "supercurrent", "normal_current", "A_induced"):
+                    and n.value.id in fields:
                 muts.append(f"L{n.lineno}: {norm(n)}")
-            if isinstance(n, ast.AugAssign) and isinstance(n.target, ast.Name) and n.target.id in ("psi", "mu", "supercurrent", "normal_current", "A_induced"):
+            if isinstance(n, ast.AugAssign) and isinstance(n.target, ast.Name) and n.target.id in fields:
                 muts.append(f"L{n.lineno}: {norm(n)}")
     ctx.ob("R11.2", "the probe readout / bookkeeping tail of update() does not modify psi, mu or the currents", not muts and bool(tail),
            detail=muts, where=fu.fq, construct="tail of update()", message=f"fields modified after the solve: {muts}",
@@ -220,24 +229,36 @@ def observers(ctx):
 def resume(ctx):
     repo = ctx.repo
     fs = repo.func(SOLVER, "TDGLSolver.solve")
-    dicts = [n for n in own_nodes(fs.node) if isinstance(n, ast.Assign) and norm(n.targets[0]) == "parameters" and isinstance(n.value, ast.Dict)]
-    if len(dicts) != 2:
-        raise AnalysisError("solve() no longer has a fresh and a seed `parameters` table")
+    from ..dataflow import expanded_text
+    # locals identified by role: the state table is what Runner(names=list(<table>)) receives, the list of constant inputs is
+    # what Runner(fixed_names=tuple(<list>)) receives
+    pname = fnames = None
+    for n in own_nodes(fs.node):
+        if isinstance(n, ast.Call):
+            for k in n.keywords:
+                inner = [x.id for x in ast.walk(k.value) if isinstance(x, ast.Name) and x.id not in ("list", "tuple")]
+                if k.arg == "names" and len(inner) == 1:
+                    pname = inner[0]
+                if k.arg == "fixed_names" and len(inner) == 1:
+                    fnames = inner[0]
+    if pname is None or fnames is None:
+        raise AnalysisError("solve() no longer hands Runner(names=list(<table>), fixed_names=tuple(<list>))")
+    dicts = [n for n in own_nodes(fs.node) if isinstance(n, ast.Assign) and norm(n.targets[0]) == pname and isinstance(n.value, ast.Dict)]
     keys = [[k.value for k in d.value.keys] for d in dicts]
     ctx.ob("R11.4", "fresh-start and seed tables have the same keys in the same order", keys[0] == keys[1], detail=keys, where=fs.fq,
            construct="parameters tables", loc=loc(fs, dicts[0]), message=f"fresh {keys[0]} vs seed {keys[1]}",
            consequence="a resumed run starts from a state missing a field (e.g. the induced potential)")
     seed = dicts[1].value
-    bad = [f"{k.value}: {norm(v)}" for k, v in zip(seed.keys, seed.values) if norm(v) != f"seed_data.{k.value}"]
-    sd = [norm(n.value) for n in own_nodes(fs.node) if isinstance(n, ast.Assign) and norm(n.targets[0]) == "seed_data"]
-    ctx.ob("R11.4", "every seed value is the same-named field of seed_solution.tdgl_data", not bad and sd == ["seed_solution.tdgl_data"],
-           detail={"mismatched": bad, "seed_data": sd}, where=fs.fq, construct="seed values", loc=loc(fs, dicts[1]),
+    bad = [f"{k.value}: {expanded_text(fs.node, v)}" for k, v in zip(seed.keys, seed.values)
+           if expanded_text(fs.node, v) not in (f"self.seed_solution.tdgl_data.{k.value}", f"seed_solution.tdgl_data.{k.value}")]
+    ctx.ob("R11.4", "every seed value is the same-named field of seed_solution.tdgl_data", not bad,
+           detail={"mismatched": bad}, where=fs.fq, construct="seed values", loc=loc(fs, dicts[1]),
            message=f"seed table mismatches: {bad}", consequence="a resumed run swaps fields (e.g. normal current for supercurrent)")
     fu = repo.func(SOLVER, "TDGLSolver.update")
     kwonly = [a.arg for a in fu.node.args.kwonlyargs]
     extra = [norm(n.targets[0].slice) for n in own_nodes(fs.node) if isinstance(n, ast.Assign) and isinstance(n.targets[0], ast.Subscript)
-             and norm(n.targets[0].value) == "parameters" and isinstance(n.targets[0].slice, ast.Constant)]
-    fixed = [n.args[0].value for n in own_nodes(fs.node) if isinstance(n, ast.Call) and norm(n.func) == "fixed_names.append"
+             and norm(n.targets[0].value) == pname and isinstance(n.targets[0].slice, ast.Constant)]
+    fixed = [n.args[0].value for n in own_nodes(fs.node) if isinstance(n, ast.Call) and norm(n.func) == f"{fnames}.append"
              and isinstance(n.args[0], ast.Constant)]
     dyn = sorted({e.strip("'") for e in extra})
     ok = set(kwonly) == set(keys[0]) | set(dyn) and set(fixed) == set(dyn)
